@@ -77,6 +77,39 @@ def classify(result, prov):
     """
     fns = prov['functions']
     tagmap = {int(k): v for k, v in prov['tagmap'].items()}
+    try:
+        gen_lines = open(prov['generated']).read().split('\n')
+    except (OSError, KeyError):
+        gen_lines = []
+
+    def enclosing_chain(line, depth=4):
+        """headers of the blocks that enclose generated line `line` (innermost first), found by indentation:
+        identifies *where* an exit is (e.g. `match self.inner.poll_ready(cx) { <- while ... {`)."""
+        if not (1 <= line <= len(gen_lines)):
+            return ''
+        def indent(t):
+            return len(t) - len(t.lstrip())
+        cur = indent(gen_lines[line - 1])
+        out = []
+        for ln in range(line - 2, -1, -1):
+            t = gen_lines[ln]
+            if not t.strip() or t.strip().startswith('//'):
+                continue
+            if indent(t) < cur:
+                head = t.strip()
+                if head == '{':
+                    # a block whose brace stands alone (loop with invariants, fn with contract): its statement is the
+                    # nearest earlier line at the same indentation
+                    for l2 in range(ln - 1, -1, -1):
+                        t2 = gen_lines[l2]
+                        if t2.strip() and not t2.strip().startswith('//') and indent(t2) <= indent(t):
+                            head = t2.strip()
+                            break
+                out.append(head[:90])
+                cur = indent(t)
+                if len(out) >= depth or cur == 0:
+                    break
+        return ' <- '.join(out)
 
     def fn_at(line):
         for e in fns:
@@ -134,6 +167,9 @@ def classify(result, prov):
                     site_line = s['line_start']
         site_text = ' '.join(t['text'].strip() for sp in primary for t in sp.get('text', []))[:300]
         exit_text = ' '.join(t['text'].strip() for sp in spans if not sp.get('is_primary') and ('exit' in (sp.get('label') or '') or 'end of the function' in (sp.get('label') or '')) for t in sp.get('text', [])[:3])[:300]
+        exit_spans = [sp for sp in spans if not sp.get('is_primary') and ('exit' in (sp.get('label') or '') or 'end of the function' in (sp.get('label') or ''))]
+        exit_line = exit_spans[0]['line_start'] if exit_spans else None
+        exit_context = enclosing_chain(exit_line) if exit_line else ''
         clause_line, clause_text, tags = None, None, None
         if labelled:
             s = labelled[0]
@@ -158,7 +194,7 @@ def classify(result, prov):
             tags = func['tags']
         failures.append(dict(function=func['name'] if func else None, emit_name=func['emit_name'] if func else None,
                              canary=canary, kind=msg, tags=tags or '', clause_line=clause_line, clause_text=clause_text,
-                             site_line=site_line, site_text=site_text, exit_text=exit_text, region=where, rendered=rendered,
+                             site_line=site_line, site_text=site_text, exit_text=exit_text, exit_line=exit_line, exit_context=exit_context, region=where, rendered=rendered,
                              src=func['src'] if func else None, src_lines=func['src_lines'] if func else None))
     return dict(failures=failures, undecided=undecided, fatal=fatal)
 
